@@ -347,12 +347,20 @@ pub fn check(case: &Case, obs: &mut Obs) -> Result<(), Fail> {
         }
         // ---- P4: it succeeds. (a)/(b): no failure preceded -> connected within one interval (+ connect time)
         // (only claimed when the in-flight cap can never be the reason for a delay)
+        let mut starvation_checked = false;
         let demand = entries.iter().filter(|e| e.affinity % 3 == 0 && !e.is_self && !e.addrs.is_empty()).count() + explicit.len();
         let cap_never_binding = demand <= cap;
         for (e, ent) in entries.iter().enumerate() {
             if ent.affinity % 3 != 0 || ent.is_self || ent.addrs.is_empty() { continue; }
             let id = entry_id(e);
+            // "keeps dialing until it is connected": as long as the peers that can never connect
+            // cannot occupy every connecting slot for good, a peer with a live address gets its turn
+            let hopeless = entries.iter().filter(|e| e.affinity % 3 == 0 && !e.is_self && !e.addrs.is_empty() && !e.addrs.iter().take(3).any(|k| *k == AddrKind::Live)).count();
             if !cap_never_binding {
+                if hopeless <= cap && hopeless > 0 && ent.addrs.iter().take(3).any(|k| *k == AddrKind::Live) {
+                    vensure!(n.net.peers().contains(&id), "c13:starved", "entry {e} (High, addresses {:?}) is not connected after a fault-free tail of {tail} ms although only {hopeless} unreachable High peer(s) compete for {cap} connecting slot(s)", ent.addrs);
+                    starvation_checked = true;
+                }
                 continue;
             }
             // becoming eligible with a clean slate: at start, and after each loss that follows a success
@@ -383,6 +391,7 @@ pub fn check(case: &Case, obs: &mut Obs) -> Result<(), Fail> {
         }
         let _ = schedule_end;
         obs.evals(atts.len() as u64);
+        if starvation_checked { obs.label("liveness-checked-under-binding-cap"); }
         if streak2 { obs.label(">=2-failures-then-success"); }
         if multi_addr { obs.label("multi-address-peer-dialed"); }
         if cap_binding { obs.label("cap-was-binding"); }
